@@ -47,7 +47,7 @@ def generate(rng, tier):
     # SCALE: a long observing session (block-wise or bulk paths that only engage beyond some number of frames)
     big = rng.random() < (0.06 if tier == "quick" else 0.12)
     if big:
-        nfr = rng.choice([33, 40, 64, 70] + ([130] if tier == "thorough" else []))
+        nfr = rng.choice([33, 40, 64, 70])
     same_t = rng.random() < 0.6
     geom = {"fchans": rng.choice([16, 24, 32, 48]), "df": rng.choice([1.0, 2.7939677238464355, 0.5]),
             "dt": rng.choice([1.0, 18.253611008, 2.5]), "fch1": rng.choice([6e9, 1.42e9, 8.421e9]),
@@ -498,9 +498,11 @@ def execute(sc, ctx):
     nlines = h.count
     points = list(range(1, nlines + 1))
     exhaustive = True
-    if nlines > MAX_LINE_POINTS:
-        step = nlines / float(MAX_LINE_POINTS)
-        points = sorted({int(1 + i * step) for i in range(MAX_LINE_POINTS)})
+    # every point costs one injection into the whole cadence: long cadences get proportionally fewer points
+    max_points = MAX_LINE_POINTS if len(all_frames) <= 8 else max(60, 6000 // len(all_frames))
+    if nlines > max_points:
+        step = nlines / float(max_points)
+        points = sorted({int(1 + i * step) for i in range(max_points)})
         exhaustive = False
         ctx.hit("line_points_subsampled")
     for jline in points:
